@@ -13,7 +13,8 @@ import itertools
 import json
 
 PROPERTY = "C19"
-RULE = ("documents = a base selection tree over `type Query {a: Query b: Query c: Int d: Int}` (aliases x->a, y->b, z->c so "
+RULE = ("[selected_fields has its own direct oracle: listed path set = reference path set for maxdepth None/0/1/2/3 and fnmatch patterns; "
+        "the rule is also driven through graphql_blocking(validators=[rule]) with request variables] ""documents = a base selection tree over `type Query {a: Query b: Query c: Int d: Int}` (aliases x->a, y->b, z->c so "
         "equal response keys are always mergeable), distributed over inline fragments (typed/untyped) and named fragments: "
         "EXHAUSTIVE for two small base operations (every partition of every selection list into contiguous blocks, each "
         "block plain / inline / spread), SAMPLED for larger ones (1-3 operations, shared fragments, @skip/@include with "
@@ -22,9 +23,8 @@ RULE = ("documents = a base selection tree over `type Query {a: Query b: Query c
         "unknown name, ''}. non-trivial = distinct (document, variables) with spec depth >= 1 for some operation or with a "
         "fragment/directive at the top of an operation")
 ASSUMPTIONS = [
-    "variables are a name->bool map that binds every variable used in an @skip/@include condition (what coerce_variable_values "
-    "produces for a valid request); the raw-variables gap (defaulted variable omitted from the request) is exercised separately "
-    "and is the known finding Q1-vars",
+    "variables: the request supplies a bool for every REQUIRED directive variable; variables declared with a default may be omitted "
+    "(the specification is evaluated with what coerce_variable_values gives the operation: C19-Q1vars.patch makes the rule do the same)",
     "documents are valid (parsed by py_gql.lang.parse and accepted by the default validation rules; NoUnusedVariables is left out "
     "because defect V4 of the unchanged tree reports variables used through nested fragments as unused): fragments acyclic and defined, "
     "unique fragment names, @skip/@include conditions are Boolean literals or variables",
@@ -36,9 +36,11 @@ TRUSTED = [
     "generated document against the generator's own tree) and the Python reference depth (cross-checked against the Lean spec on every case)",
     "Lean `Doc.fuel`/`acyclic` are computed from the fragment weights; `acyclic` is compared with the NoFragmentCycles verdict of the real validator on every document",
 ]
-EXPLANATION = ("Theorems are proved for the rule AFTER proposed_fixes/C19-Q1.patch (model `rule`); the model of the unchanged rule "
-               "(`ruleOrig`) carries the machine-checked refutations. The correspondence compares the model of whichever rule the "
-               "tree under test contains (detected from the source: `_nesting_levels` present => fixed).")
+EXPLANATION = ("Theorems are proved for the code AFTER proposed_fixes/C19-Q1.patch (integrated), C19-Q1sf.patch (selected_fields descends "
+               "into merged same-key sub-selections) and C19-Q1vars.patch (variables passed to validators and coerced per operation): models "
+               "`rule`/`ruleV`/`selectedFields`. The models of the unchanged code (`ruleOrig`, `selectedFieldsOrig`, `rule` on raw variables) carry "
+               "the machine-checked refutations. The correspondence compares the model of whichever variant the tree under test contains "
+               "(detected from the source: `_nesting_levels`, `_selected_paths`, `coerce_variable_values` in max_depth.py).")
 
 LIMITS = list(range(0, 9))
 MAXDEPTHS = [0, 1, 2, 3]
@@ -117,11 +119,32 @@ def vars_in(sels, frags, seen=None):
     return out
 
 
+def decl_of(defaults, v):
+    """declared default of variable v: None = required `Boolean!`, else the bool default"""
+    if isinstance(defaults, dict):
+        return defaults.get(v)
+    return True if defaults else None
+
+
+def decl_suffix(defaults, v):
+    d = decl_of(defaults, v)
+    return "!" if d is None else (" = true" if d else " = false")
+
+
+def wire_doc(doc, defaults=False):
+    """the document as sent to the Lean driver: + variable definitions per operation"""
+    out = strip(doc)
+    for o in out["ops"]:
+        o["vd"] = [{"n": v, "nn": decl_of(defaults, v) is None, "d": decl_of(defaults, v)}
+                   for v in sorted(vars_in(o["sels"], doc["frags"]))]
+    return out
+
+
 def p_doc(doc, defaults=False):
     parts = []
     for op in doc["ops"]:
         vs = sorted(vars_in(op["sels"], doc["frags"]))
-        decl = "(" + ", ".join("$%s: Boolean%s" % (v, " = true" if defaults else "!") for v in vs) + ")" if vs else ""
+        decl = "(" + ", ".join("$%s: Boolean%s" % (v, decl_suffix(defaults, v)) for v in vs) + ")" if vs else ""
         head = "query %s%s " % (op["name"], decl) if op["name"] else ("query %s " % decl if decl else "")
         parts.append(head + p_sels(op["sels"]))
     for f in doc["frags"]:
@@ -163,7 +186,13 @@ def conv_doc(document):
     ops, frags = [], []
     for d in document.definitions:
         if isinstance(d, A.OperationDefinition):
-            ops.append({"name": d.name.value if d.name else None, "sels": sels(d.selection_set)})
+            vd = []
+            for v in d.variable_definitions:
+                dv = v.default_value
+                vd.append({"n": v.variable.name.value, "nn": isinstance(v.type, A.NonNullType),
+                           "d": bool(dv.value) if isinstance(dv, A.BooleanValue) else None})
+            ops.append({"name": d.name.value if d.name else None, "sels": sels(d.selection_set),
+                        "vd": sorted(vd, key=lambda x: x["n"])})
         elif isinstance(d, A.FragmentDefinition):
             frags.append({"name": d.name.value, "sels": sels(d.selection_set)})
     return {"ops": ops, "frags": frags}
@@ -197,6 +226,58 @@ def ref_depth(doc, i, vs):
     return max(0, ref_levels(doc["ops"][i]["sels"], doc["frags"], vs) - 1)
 
 
+def ref_paths(sels, frags, vs, maxdepth, prefix=()):
+    """reference for selected_fields: every path of field NAMES (through fragments, @skip/@include honoured) with at most
+       `maxdepth` components (None/0 = unbounded), as a set of tuples"""
+    out = set()
+    for s in sels:
+        if is_skipped(s["d"], vs):
+            continue
+        if s["k"] == "f":
+            p = prefix + (s["n"],)
+            out.add(p)
+            if not maxdepth or len(p) < maxdepth:
+                out |= ref_paths(s["s"], frags, vs, maxdepth, p)
+        elif s["k"] == "i":
+            out |= ref_paths(s["s"], frags, vs, maxdepth, prefix)
+        else:
+            fr = [f for f in frags if f["name"] == s["n"]]
+            if fr:
+                out |= ref_paths(fr[-1]["sels"], frags, vs, maxdepth, prefix)
+    return out
+
+
+PATTERNS = [None, "a/*", "*/c", "b"]
+
+
+def paths_failure(real, case, document):
+    """direct oracle on selected_fields itself: the set of listed paths = the reference set (complete and sound), for every
+       direct Field child of every operation, maxdepth in {None,0,1,2,3}, a few fnmatch patterns"""
+    import fnmatch
+    import re
+    doc, vs, rvs = case.doc, case.vs, case.vs       # selected_fields is given coerced variables by its callers
+    ops = [d for d in document.definitions if isinstance(d, real.A.OperationDefinition)]
+    for i, (op, rop) in enumerate(zip(doc["ops"], ops)):
+        fields = [s for s in op["sels"] if s["k"] == "f"]
+        rfields = [s for s in rop.selection_set.selections if isinstance(s, real.A.Field)]
+        for fj, (f, rf) in enumerate(zip(fields, rfields)):
+            for md in (None, 0, 1, 2, 3):
+                ref = ref_paths(f["s"], doc["frags"], vs, md)
+                for pat in (PATTERNS if md in (None, 2) else [None]):
+                    try:
+                        got = real.selected_fields(rf, fragments=document.fragments, variables=rvs, maxdepth=md, pattern=pat)
+                    except Exception as e:  # noqa
+                        return ("paths-raises:" + type(e).__name__, i, {"field_index": fj, "maxdepth": md, "pattern": pat})
+                    want = ref if pat is None else {p for p in ref if re.match(fnmatch.translate(pat), "/".join(p))}
+                    gots = {tuple(p.split("/")) for p in got}
+                    if gots != want:
+                        missing = sorted("/".join(p) for p in want - gots)
+                        extra = sorted("/".join(p) for p in gots - want)
+                        return ("paths-missing" if missing else "paths-extra", i,
+                                {"field_index": fj, "maxdepth": md, "pattern": pat, "missing": missing[:5], "extra": extra[:5]})
+    return None
+
+
 def features(doc, i, vs):
     """structural features naming a failure class (computed on the shrunk case)"""
     op = doc["ops"][i]
@@ -226,6 +307,11 @@ def features(doc, i, vs):
                 fr = [f for f in doc["frags"] if f["name"] == s["n"]]
                 if fr:
                     stack = fr[-1]["sels"] + stack
+        names = {}
+        for k, group in keys.items():
+            names.setdefault(group[0]["n"], []).append(k)
+        if any(len(v) > 1 for v in names.values()):
+            fs.add("same-field-two-aliases")
         for k, group in keys.items():
             if len(group) > 1 and any(g["s"] for g in group):
                 fs.add("same-key")
@@ -557,6 +643,10 @@ def oracle_failures(real, case, limits=LIMITS, want_valid=True):
                     else:
                         fails.append(("error-order", 0, {"limit": limit, "filter": filt, "flagged": got, "expected": exp}))
                 return fails[:1]
+    if not fails:
+        pf = paths_failure(real, case, document)
+        if pf:
+            return [pf]
     if case.base is not None and not fails:
         bdoc = real.parse(p_doc(case.base, case.defaults))
         for i in range(len(doc["ops"])):
@@ -664,23 +754,26 @@ def report(ctx, real, case, fails):
         "name-filter": "the operation_name filter does not restrict the check to that operation",
         "wrap-lowers": "wrapping selections in fragments lowers the measured depth",
         "error-order": "errors not reported once per operation in document order",
+        "paths-missing": "selected_fields does not list a selected field path",
+        "paths-extra": "selected_fields lists a path that is not selected (or is beyond maxdepth / outside the pattern)",
+        "paths-raises": "selected_fields raises on a valid document",
     }[kind2.split(":")[0]]
     ctx.fail(sig, "%s (%s)" % (what, feat), small.detail(operation=i2, spec_depth=ref_depth(small.doc, i2, small.vs), **info2))
 
 
-def correspond(ctx, real, cases, fixed):
+def correspond(ctx, real, cases, fixed, sf_fixed=True, vars_fixed=True):
     """model vs real code (+ Lean spec vs Python reference spec, acyclic vs validator)"""
     if not ctx.model_ok or not cases:
         return
     reqs = []
     for c in cases:
-        reqs.append({"op": "check", "doc": strip(c.doc), "vars": c.real_vs,
+        reqs.append({"op": "check", "doc": wire_doc(c.doc, c.defaults), "vars": c.real_vs,
                      "grid": [[f, l] for f, l in grid_of(c.doc)], "maxdepths": MAXDEPTHS})
     answers = ctx.driver.ask(reqs)
     for c, a in zip(cases, answers):
         document = getattr(c, "document", None) or real.parse(p_doc(c.doc, c.defaults))
         conv = conv_doc(document)
-        if conv != strip(c.doc):
+        if conv != wire_doc(c.doc, c.defaults):
             ctx.fail("corr:ast-conversion", "converted parsed AST differs from the generated tree", c.detail(), kind="correspondence")
             continue
         if a.get("acyclic") is not True:
@@ -689,7 +782,7 @@ def correspond(ctx, real, cases, fixed):
         if a.get("spec") != spec and c.real_vs == c.vs:
             ctx.fail("corr:spec-depth", "Lean spec depth differs from the Python reference depth",
                      c.detail(lean=a.get("spec"), reference=spec), kind="correspondence")
-        key = "rule" if fixed else "orig"
+        key = ("rulev" if vars_fixed else "rule") if fixed else "orig"
         have = getattr(c, "grid", {})
         for (f, l), m in zip(grid_of(c.doc), a[key]):
             got = have[(f, l)] if (f, l) in have else real.flags(document, c.real_vs, l, f)
@@ -702,22 +795,25 @@ def correspond(ctx, real, cases, fixed):
                 break
         for md_i, md in enumerate(MAXDEPTHS):
             impl = real.paths(document, c.real_vs, md if md else None)
-            model = [[(ERRMAP.get(cell[md_i], cell[md_i]) if isinstance(cell[md_i], str) else cell[md_i]) for cell in row] for row in a["paths"]]
+            model = [[(ERRMAP.get(cell[md_i], cell[md_i]) if isinstance(cell[md_i], str) else cell[md_i]) for cell in row] for row in a["paths" if sf_fixed else "pathsOrig"]]
             ctx.count()
             if impl != model:
-                if md == 0:
-                    # maxdepth=None is the mode the (unchanged) rule uses: property-relevant
-                    ctx.fail("corr:selected_fields", "model and selected_fields differ", c.detail(maxdepth=md, impl=impl, model=model), kind="correspondence")
-                else:
-                    # bounded maxdepth is modelled but is not part of what C19 states: recorded, never an alarm
-                    ctx.extra["selected_fields_bounded_maxdepth_differences"] = ctx.extra.get("selected_fields_bounded_maxdepth_differences", 0) + 1
-                    if len(ctx.notes) < 3:
-                        ctx.notes.append("selected_fields(maxdepth=%d) differs from the model on: %s" % (md, p_doc(c.doc)[:200]))
+                ctx.fail("corr:selected_fields", "model and selected_fields differ", c.detail(maxdepth=md, impl=impl, model=model), kind="correspondence")
                 break
         if md == MAXDEPTHS[-1]:
             impl0 = real.paths(document, c.real_vs, 0)
             if impl0 != real.paths(document, c.real_vs, None):
                 ctx.fail("corr:selected_fields:maxdepth0", "maxdepth=0 and None differ", c.detail(), kind="correspondence")
+
+
+def is_sf_fixed_tree():
+    from common import REPO
+    return "_selected_paths" in (REPO / "src/py_gql/utilities/collect_fields.py").read_text()
+
+
+def is_vars_fixed_tree():
+    from common import REPO
+    return "coerce_variable_values" in (REPO / "src/py_gql/utilities/max_depth.py").read_text()
 
 
 def is_fixed_tree():
@@ -745,6 +841,10 @@ def corpus_cases():
 def run(ctx):
     real = Real()
     fixed = is_fixed_tree()
+    sf_fixed = is_sf_fixed_tree()
+    vars_fixed = is_vars_fixed_tree()
+    ctx.extra["variables_under_test"] = "coerced per operation (C19-Q1vars.patch applied)" if vars_fixed else "raw request variables"
+    ctx.extra["selected_fields_under_test"] = "fixed (C19-Q1sf.patch applied)" if sf_fixed else "unchanged (descends into fields[0] only)"
     ctx.extra["tree_under_test"] = "fixed (proposed_fixes/C19-Q1.patch applied)" if fixed else "unchanged (Q1 present)"
     counter = [0]
     pending = []
@@ -769,7 +869,7 @@ def run(ctx):
             flush()
 
     def flush():
-        correspond(ctx, real, pending, fixed)
+        correspond(ctx, real, pending, fixed, sf_fixed, vars_fixed)
         del pending[:]
 
     # --- corpus (hand-written edge cases; texts over the same schema) -------------------
@@ -812,7 +912,7 @@ def run(ctx):
     flush()
 
     # --- sampled larger documents ---------------------------------------------------------
-    n = ctx.n(500, 3000)
+    n = ctx.n(420, 2600)
     for j in range(n):
         if ctx.time_left() < 8:
             ctx.notes.append("sampled stream stopped early at %d/%d" % (j, n))
@@ -826,8 +926,26 @@ def run(ctx):
         if len(assigns) > 4:
             assigns = ctx.rng.sample(assigns, 4)
         for vs in assigns:
-            check(Case(doc, vs, base=base))
+            if used and ctx.rng.random() < 0.5:
+                # some variables declared with a default; some of those omitted from the request
+                decl = {v: (None if ctx.rng.random() < 0.4 else ctx.rng.random() < 0.5) for v in used}
+                rvs = dict(vs)
+                svs = dict(vs)
+                for v, dflt in decl.items():
+                    if dflt is not None and ctx.rng.random() < 0.6:
+                        del rvs[v]
+                        svs[v] = dflt            # what execution (and the specification) sees
+                ctx.stat("declared-defaults")
+                if len(rvs) < len(vs):
+                    ctx.stat("defaulted-variable-omitted")
+                cdef = Case(doc, svs, base=base, defaults=decl, real_vs=rvs)
+                cdef.validate = ctx.rng.random() < 0.25     # same document, other declarations: full validation of a quarter
+                check(cdef)
+            else:
+                check(Case(doc, vs, base=base))
         ctx.stat("sampled")
+        if j < 60 and used:
+            entry_point_probe(ctx, real, doc, assigns[0])
         ctx.stat("sampled-with-wrapper-directives" if base is None else "sampled-with-base(wrap oracle)")
         if j < 3:
             ctx.sample({"text": p_doc(doc), "variables": assigns[0], "spec_depths": [ref_depth(doc, i, assigns[0]) for i in range(len(doc["ops"]))]})
@@ -843,7 +961,35 @@ def run(ctx):
         if fails:
             report(ctx, real, case, fails)
         if ctx.model_ok:
-            correspond(ctx, real, [case], fixed)
+            correspond(ctx, real, [case], fixed, sf_fixed, vars_fixed)
+
+
+def entry_point_probe(ctx, real, doc, vs):
+    """the rule as users install it: graphql_blocking(..., validators=[MaxDepthValidationRule(n)]) with request variables"""
+    from py_gql import graphql_blocking
+    from py_gql.exc import ValidationError
+    text = p_doc(doc)
+    name = doc["ops"][0]["name"]
+    d0 = ref_depth(doc, 0, vs)
+    for limit in sorted({max(d0 - 1, 0), d0}):
+        ctx.count()
+        ctx.stat("entry-point-probe")
+        try:
+            res = graphql_blocking(real.schema, text, variables=vs, operation_name=name, root={},
+                                   validators=[real.Rule(limit, operation_name=name)])
+            got = any(isinstance(e, ValidationError) for e in (res.errors or []))
+            outcome = None
+        except Exception as e:  # noqa
+            got, outcome = None, "exc:" + type(e).__name__
+        want = d0 > limit
+        if outcome or got != want:
+            kind = ("raises:%s" % outcome[4:]) if outcome else ("not-flagged" if want else "over-flagged")
+            ctx.fail("%s:entry-point-variables" % kind,
+                     "through graphql_blocking(validators=[MaxDepthValidationRule]) a document with a variable-steered directive "
+                     + ("raises" if outcome else "is checked with the wrong variables"),
+                     {"text": text, "variables": vs, "limit": limit, "operation_name": name, "spec_depth": d0,
+                      "entry_point": True, "outcome": outcome or got})
+            return
 
 
 def doc_with_types(doc):
@@ -853,17 +999,28 @@ def doc_with_types(doc):
 def replay(ctx, data):
     inp = data.get("input", {})
     real = Real()
+    if inp.get("entry_point"):
+        from py_gql import graphql_blocking
+        from py_gql.exc import ValidationError
+        try:
+            res = graphql_blocking(real.schema, inp["text"], variables=inp["variables"], operation_name=inp["operation_name"],
+                                   root={}, validators=[real.Rule(inp["limit"], operation_name=inp["operation_name"])])
+        except Exception:  # noqa
+            return False
+        return any(isinstance(e, ValidationError) for e in (res.errors or [])) == (inp["spec_depth"] > inp["limit"])
     document = real.parse(inp["text"])
     doc = conv_doc(document)
-    case = Case(doc, inp.get("variables", {}))
+    case = Case(doc, inp.get("spec_variables", inp.get("variables", {})), real_vs=inp.get("variables", {}))
     # the text is authoritative (it already carries the variable declarations): evaluate the oracle on it directly
     vs = case.vs
     ok = True
     for filt in filters_of(doc):
         for limit in LIMITS:
             for via in (False, True):
-                if real.flags(document, vs, limit, filt, via_validate=via) != expected_flags(doc, vs, limit, filt):
+                if real.flags(document, case.real_vs, limit, filt, via_validate=via) != expected_flags(doc, vs, limit, filt):
                     ok = False
+    if ok and paths_failure(real, case, document):
+        ok = False
     if "base_text" in inp and ok:
         bdoc = real.parse(inp["base_text"])
         for i in range(len(doc["ops"])):
